@@ -383,21 +383,31 @@ UNIVERSAL_DUNDERS = ["__class__", "__eq__", "__doc__", "__init__", "__reduce__",
 
 
 def missing_path_dunder_key(r, key: str):
+    """one STRUCTURAL component misspelt (detector / its section / pipeline / the group / `arguments`: a misspelt model
+    or argument name could be another existing one, and then the key would walk into a value), cut anywhere after it,
+    + a name every object has"""
     parts = key.split(".")
-    d = r.randrange(1, len(parts) + 1) if len(parts) > 1 else 1
+    structural = [i for i in range(len(parts) - 1) if i in (0, 1) or (i == 3 and parts[0] == "pipeline" and parts[3] == "arguments")]
+    i = r.choice(structural)
+    d = r.randrange(i + 1, len(parts) + 1)
     prefix = parts[:d]
-    i = r.randrange(len(prefix))
-    prefix[i] = misspell(r, prefix[i])
-    while prefix[i].startswith("_"):
+    prefix[i] = misspell(r, parts[i])
+    while prefix[i].startswith("_") or prefix[i] in GROUPS or prefix[i] in ("detector", "pipeline", "observation", "arguments"):
         prefix[i] = misspell(r, parts[i])
     return ".".join(prefix + [r.choice(UNIVERSAL_DUNDERS)])
+
+
+def walk_reaches(prefix, det="ccd") -> bool:
+    """a model called like a method of ModelGroup (`run`) is hidden by that method: keys through it walk into the method
+    object, which the settings tree lists as a leaf without attributes (see ASSUME)"""
+    return not (len(prefix) >= 3 and prefix[0] == "pipeline" and (prefix[2] in names_of(det, "ModelGroup") or prefix[2] in STATIC_NAMES["ModelGroup"]))
 
 
 def class_attr_key(r, key: str, pipe, det="ccd", dunder=0.25):
     """a valid key cut after one of its objects + a class-level name of that object's class"""
     parts = key.split(".")
-    depths = [d for d in range(len(parts)) if landing_label(parts[:d])]
-    if parts[0] == "pipeline" and len(parts) >= 5 and r.random() < 0.5:
+    depths = [d for d in range(len(parts)) if landing_label(parts[:d]) and walk_reaches(parts[:d], det)]
+    if parts[0] == "pipeline" and len(parts) >= 5 and r.random() < 0.5 and 4 in depths:
         depths = [4]            # the Arguments object: the place where a name is most easily both
     d = r.choice(depths)
     prefix = parts[:d]
@@ -1344,6 +1354,11 @@ def leg_validate(ctx: Ctx, cases, tag="v"):
                                                                      f"{o['ran']['raise']} after {min(o['ran']['calls'], 1)}+ model calls"
                                                                      if o["ran"]["calls"] else o["ran"]["raise"] + " before any model"))
         ctx.dist("validate_outcome", o["validate"] or "accepted")
+        if o.get("ran") is not None and "ok" in o["ran"]:
+            # completed sweeps: which value the enabled flag of the swept models held, and how the flag got there
+            for k, en in zip(c["keys"], c["step_enabled"]):
+                if en and k.startswith("pipeline."):
+                    ctx.dist("completed_sweep_model_flag", _flag_class(o["before"], k.split(".")[:3]) + (" (assigned through a key)" if c.get("pre") else ""))
         for kd, en in zip(c["kinds"], c["step_enabled"]):
             ctx.dist("step_key_kind", kd if en else "(step disabled) " + kd)
     return pairs
